@@ -25,6 +25,9 @@ type Harness struct {
 	Stub []string
 	// Setup runs before every simulated run, outside the bubble.
 	Setup func()
+	// Post runs after the bubble has ended (outside it), e.g. to check a
+	// recorded history with a linearizability checker; it may call r.Failf.
+	Post func(r *Run)
 }
 
 // Viol is a violation found by a worker.
@@ -119,6 +122,10 @@ func (h *Harness) runOnce(t *testing.T, seed int64, tier string, tapes *[3][]int
 		h.Setup()
 	}
 	r.execute(t, h.Run)
+	r.finished = true
+	if h.Post != nil && r.violClass == "" && !r.Stuck && !r.StepLimit {
+		h.Post(r)
+	}
 	if r.Stuck && r.violClass == "" {
 		var sb strings.Builder
 		for _, ti := range r.aliveAll() {
@@ -327,6 +334,7 @@ func Main(t *testing.T, h Harness) {
 			res.StepLimit++
 			res.Inconclusive++
 		}
+		res.Inconclusive += r.inconclusive
 		if mode == "selftest" {
 			r2 := h.runOnce(t, s, tier, nil)
 			tp := tapesOf(r)
